@@ -7,7 +7,7 @@ open Rtp Rtp.Proto Rtp.Model
 
 /-! ### C02
 
-  `c02.parse <buf> <opt prev> => recv(fresh) recv(reused)`
+  `c02.parse <buf> <list bytes prevs> => recv(fresh) recv(reused)`
      recv := hres pres
      hres := ok <header> <n> <nExt> <list int locs> <list u8 ids> <list obytes gets> | err <k> | panic
      pres := ok <packet> <nExt> <int payOff> <list int locs> <list u8 ids> <list obytes gets> | err <k> | panic
@@ -28,7 +28,7 @@ def rdRecv : Rd Pred.C02.Recv := do
   pure { hun := h, pun := p }
 
 def c02parse : Handler :=
-  mkHandler (do let b ← Rd.bytes; let prev ← Rd.opt Rd.bytes; pure (b, prev))
+  mkHandler (do let b ← Rd.bytes; let prev ← Rd.list Rd.bytes; pure (b, prev))
     (do let f ← rdRecv; let r ← rdRecv; pure ({ fresh := f, reused := r } : Pred.C02.Obs))
     (fun (b, prev) => Pred.C02.modelObs b prev)
     (fun (b, prev) o => Pred.C02.pred b prev o)
